@@ -86,15 +86,15 @@ func refHeader(id uint32, index []int) []byte {
 }
 
 type idxRef struct {
-	ok        bool  // well-formed index list
-	count     int64 // decoded count (valid when countOK)
-	countOK   bool
-	index     []int
-	rest      []byte
-	nonMin    bool // some varint was zero padded: property is silent
-	tooLong   bool // count > maxLength (maxLength > 0), nothing else judged
-	big       bool // count > 2^20: an unguarded decoder would allocate a huge slice
-	mid       bool // 2^20 < count < 2^40: whether that allocation succeeds depends on the machine
+	ok      bool  // well-formed index list
+	count   int64 // decoded count (valid when countOK)
+	countOK bool
+	index   []int
+	rest    []byte
+	nonMin  bool // some varint was zero padded: property is silent
+	tooLong bool // count > maxLength (maxLength > 0), nothing else judged
+	big     bool // count > 2^20: an unguarded decoder would allocate a huge slice
+	mid     bool // 2^20 < count < 2^40: whether that allocation succeeds depends on the machine
 }
 
 func refDecodeIndex(b []byte, maxLength int) (r idxRef) {
@@ -1121,7 +1121,7 @@ func TestCheck(t *testing.T) {
 	}
 
 	// generated registries: round trip
-	nrt := r.Pick(40_000, 4_000_000)
+	nrt := r.Pick(40_000, 2_000_000)
 	vh.Parallel(workers, workers, func(w int) {
 		rng := r.Rand("roundtrip", w)
 		for k := 0; k < nrt/workers; k++ {
@@ -1134,7 +1134,7 @@ func TestCheck(t *testing.T) {
 
 	// hostile decoding: in process when the reference says nothing big can be allocated,
 	// otherwise in a child process
-	nh := r.Pick(120_000, 8_000_000)
+	nh := r.Pick(120_000, 4_000_000)
 	var mu sync.Mutex
 	var risky []hostile
 	riskyCap := r.Pick(400, 3000)
